@@ -4,3 +4,8 @@ import NB.Wire
 import NB.Model.AddSub
 import NB.Drv.C01
 import NB.Drv.C05
+import NB.Drv.C09
+import NB.Drv.C17
+import NB.Drv.C10
+import NB.Drv.C18
+import NB.Drv.C06
